@@ -88,6 +88,9 @@ fn main() {
     let sc = scripts(quick);
     let modes = [Mode::Eager, Mode::Burst, Mode::SlowRead];
     let cfgs = grid(&sc, &[8, 48, 4096], &[2, 3, 64], &modes, &[0]);
+    let mut small = asys::grid::with_small_lane_buf(&cfgs);
+    small.extend(cfgs);
+    let cfgs = small;
     run_grid(&ctx, GridSpec { name: "as-value-grid-d1".into(), cfgs, bound: 1, max_exec_per_cfg: 20_000, wall_cap_s: if quick { 25.0 } else { 900.0 } });
     // core: tightest capacity, small credit, d <= 2
     let core: Vec<_> = sc.iter().filter(|(s, _)| s.len() <= 5).cloned().collect();
